@@ -187,3 +187,27 @@ def c16_anderson(ctx, depth, restart, tensor):
     fresh = darsia.AndersonAcceleration(dimarg, depth, restart)
     c = run(fresh, x0.copy())
     ctx.ensure("re-used accelerator (restarted at iteration 0) reproduces a fresh accelerator step by step", all(_rel(p, q) for p, q in zip(a, c)))
+
+
+@ob("C16.jacobi_inplace", cases=product_cases(form=("1d", "2d"), which=("mass", "diffusion", "both")), mods=MODS, funcs=FUNCS, samples=(2, 5),
+    budget={"timeout_ms": 8000, "wall_s": 90},
+    cite="depends only on the arguments of that call (including the grid spacing and coefficients passed or set for it)",
+    note="array-valued coefficients changed IN PLACE between two calls of the same solver object (also the library's default solver instance through H1_regularization)")
+def c16_jacobi_inplace(ctx, form, which):
+    shape = SHAPES[form]
+    dim = len(shape)
+    m = ctx.array("m", shape, pos=True, sample=(0.5, 2.0))
+    k = ctx.array("k", shape, pos=True, sample=(0.5, 2.0))
+    m2 = ctx.array("mm", shape, pos=True, sample=(0.5, 2.0))
+    k2 = ctx.array("kk", shape, pos=True, sample=(0.5, 2.0))
+    x0, rhs = ctx.array("x", shape, sample=(-1.0, 1.0)), ctx.array("r", shape, sample=(-1.0, 1.0))
+    h = ctx.real("h", pos=True, sample=(0.3, 2.0))
+    used = darsia.Jacobi(maxiter=1, dim=dim, mass_coeff=m, diffusion_coeff=k)
+    used(x0, rhs, h=h)
+    if which in ("mass", "both"):
+        m[...] = m2
+    if which in ("diffusion", "both"):
+        k[...] = k2
+    fresh = darsia.Jacobi(maxiter=1, dim=dim, mass_coeff=m.copy(), diffusion_coeff=k.copy())
+    ctx.ensure("after an in-place change of the coefficient arrays the used solver == a fresh solver with the new values", eq(used(x0, rhs, h=h), fresh(x0, rhs, h=h)))
+    ctx.ensure("and equals the Jacobi sweep for the coefficients as they are at THIS call", eq(fresh(x0, rhs, h=h), jacobi_spec(x0, rhs, m, k, h, dim, 1)))
